@@ -17,6 +17,7 @@ claimed={
  "C15": ("ValidateFile over all layouts of each seed: diagnostic subjects are real ranges (weak part so far)",),
  "C16": ("LinksInFile over all layouts of each seed: link ranges real (weak part so far)",),
  "C17": ("generated from go/types at check time: for every schema type with Copy(), all fields populated symbolically, per-field equality obligations, independence of mutable containers, no write to the original",),
+ "C18": ("relational G-drivers: every query on the seed at a seed position vs. on the seed with symbolic blank/comment lines inserted in a line slot at the image position; results must be identical up to the position shift (hover, completion, tokens, symbols, diagnostics, origins, targets)",),
  "C20": ("SignatureAtPos over all layouts/cursors of each seed: active parameter is a valid index",),
 }
 checks=[]
